@@ -231,7 +231,7 @@ def r2(ctx):
     ctx.rule('C16.R2', 'the level list handed to the command handlers is getUserLevels(user) of the connection\'s user; the '
              'user is assigned only in executeAuth after checkSecret succeeded; in the HTTP handler a failed checkSecret sets '
              'an error before any lookup; data sinks take m_levels only from their constructor (user info of the configured '
-             'user, default entry otherwise)', minimum=5, star=True)
+             'user, default entry only if that user is unknown - decided by hasUser(), not by an empty list)', minimum=6, star=True)
     fb = ctx.fb
     n = 0
     targets = ('ebusd::MainLoop::executeRead', 'ebusd::MainLoop::executeWrite', 'ebusd::MainLoop::executeFind', 'ebusd::MainLoop::executeScan')
@@ -320,7 +320,35 @@ def r2(ctx):
                 n += 1
                 ok = bool(f.d.get('ctor')) and 'getLevels(' in f.key(rhs)
                 ctx.ob('C16.R2', f, nid, ok, 'm_levels assignment in %s' % f.name.split('::')[-1], '%s' % f.key(rhs)[:100])
-    if n < 5:
+    # sinks: the default entry is the fallback for an unknown user only (a known user with an empty level list sees
+    # what the empty list allows, not the default levels)
+    seen = set()
+    for f in fb.functions:
+        if not (f.cls and 'DataSink' in f.cls and f.d.get('ctor')) or (f.name, f.sig) in seen:
+            continue
+        seen.add((f.name, f.sig))
+        un = [p['name'] for p in f.params if 'string' in (p.get('t') or '')]
+        for c in f.all('CXXMemberCallExpr'):
+            v = f.nodes[c]
+            if not (v.get('callee') or '').endswith('::getLevels') or not v.get('args'):
+                continue
+            n += 1
+            ctx.touch(f)
+            a = f.nodes[f.strip(v['args'][0], casts=True)]
+            while a.get('k') in ('CXXConstructExpr', 'CXXBindTemporaryExpr', 'MaterializeTemporaryExpr', 'CXXFunctionalCastExpr') and (a.get('args') or a.get('ch')):
+                a = f.nodes[f.strip((a.get('args') or a.get('ch'))[0], casts=True)]
+            atoms = [(k, p) for k, p in ((x[0], x[1]) for x in f.atoms(c)) if '.hasUser(' in k]
+            if a.get('k') == 'ConditionalOperator':
+                ok = '.hasUser(' in f.key(a['cond']) and '""' in f.key(a['else']) and '""' not in f.key(a['then'])
+                how = 'argument chosen by hasUser(): %s' % ok
+            elif a.get('k') == 'StringLiteral':
+                ok = any(not p for k, p in atoms)
+                how = 'default entry requested %s' % ('only for an unknown user' if ok else 'without a hasUser() test')
+            else:
+                ok = any(p for k, p in atoms)
+                how = 'levels of the named user requested %s' % ('after hasUser() succeeded' if ok else 'without a hasUser() test')
+            ctx.ob('C16.R2', f, c, ok, 'sink levels in %s' % f.name.split('::')[-1], how)
+    if n < 6:
         raise AnalysisBroken('C16.R2: only %d instances' % n)
 
 
@@ -510,7 +538,57 @@ def r7(ctx):
         raise AnalysisBroken('C16.R7: only %d filtered lookups found in the data sink classes' % n)
 
 
+def r8(ctx):
+    ctx.rule('C16.R8', 'the request loop filters with the levels of the user of the request at hand: in MainLoop::run every lookup '
+             'with a level list that is not a constant gets getUserLevels(user) evaluated after the last point where the user '
+             'of this request was determined (req->getUser(), decodeRequest(..., &user, ...)) on every path - a list kept from '
+             'an earlier request belongs to another connection', minimum=1)
+    fb = ctx.fb
+    fn = fb.fn('ebusd::MainLoop::run')
+    ctx.touch(fn)
+    u = None
+    for nid, d, rhs, op, lhs in fn.assignments():
+        if op == 'init' and rhs is not None and '.getUser()' in fn.key(rhs):
+            u = (nid, d)
+    if u is None:
+        raise AnalysisBroken('C16.R8: user of the request not found in MainLoop::run')
+    uname = u[1].split(':')[-1]
+    sources = [u[0]] + [c for c in fn.all('CallExpr', 'CXXMemberCallExpr') if any(fn.key(a) == '&' + uname for a in fn.nodes[c].get('args', []))]
+    lookups = [c for c in fn.all('CXXMemberCallExpr') if (fn.nodes[c].get('callee') or '').split('::')[-1] in ('findAll', 'find')
+               and (fn.nodes[c].get('callee') or '').startswith('ebusd::MessageMap::')]
+    n = 0
+    for c in lookups:
+        cal = [g for g in fb.functions if g.name == fn.nodes[c]['callee'] and g.sig == fn.nodes[c].get('sig')]
+        li = [i for i, p in enumerate(cal[0].params) if p.get('name') == 'levels'] if cal else []
+        if not li or li[0] >= len(fn.nodes[c]['args']):
+            continue
+        a = fn.nodes[c]['args'][li[0]]
+        an = fn.nodes[fn.strip(a, casts=True)]
+        while an.get('k') in ('CXXConstructExpr', 'CXXBindTemporaryExpr', 'MaterializeTemporaryExpr') and (an.get('args') or an.get('ch')):
+            an = fn.nodes[fn.strip((an.get('args') or an.get('ch'))[0], casts=True)]
+        if an.get('k') == 'StringLiteral':
+            continue        # constant list: C16.R7 / sinks
+        n += 1
+        if an.get('k') in ('CXXMemberCallExpr', 'CallExpr'):
+            ok = (an.get('callee') or '').endswith('::getUserLevels') and fn.key(an['args'][0]) == uname
+            ctx.ob('C16.R8', fn, c, ok, 'levels of the lookup', 'evaluated in place: %s' % fn.key(a)[:80])
+            continue
+        ld = an.get('decl')
+        fresh = set(nid for nid, d, rhs, op, lhs in fn.assignments() if d == ld and rhs is not None and
+                    'getUserLevels(%s)' % uname in fn.key(rhs))
+        stale = []
+        for s_ in sources:
+            ps = fn.pos(s_)
+            if ps is not None and fn.reaches_point(ps[0], fn.pos(c), fresh, start_idx=ps[1] + 1):
+                stale.append(fn.line_of(s_))
+        ctx.ob('C16.R8', fn, c, bool(fresh) and not stale, 'levels of the lookup', 'list can be older than the user determined at '
+               'line(s) %s' % stale if stale or not fresh else 'getUserLevels(%s) behind every determination of the user' % uname)
+    if n < 1:
+        raise AnalysisBroken('C16.R8: no lookup with a user level list found in MainLoop::run')
+
+
 def run(ctx):
+    r8(ctx)
     r1(ctx)
     r2(ctx)
     r3(ctx)
@@ -518,3 +596,6 @@ def run(ctx):
     r5(ctx)
     r6(ctx)
     r7(ctx)
+    import rules.common as _common
+    ctx.rule('C16.R9', 'arguments keep their roles across calls: at every call of a repository function in the client and sink sources (circuit, name, level list and user keep their slots on the way to the lookup) whose arguments are named like parameters of the callee, no two of them are passed crosswise (argument i named like parameter j and argument j like parameter i)', minimum=40)
+    _common.swapped_args_rule(ctx, 'C16.R9', ('src/ebusd/mainloop', 'src/ebusd/main.', 'src/ebusd/datahandler', 'src/ebusd/mqtt', 'src/ebusd/knx'), 40)
